@@ -945,6 +945,17 @@ def corrupt_value_cases(ctx, quick):
                     w = {'client': 'ProxyKmipClient', 'method': op.name, 'kmip_version': version.name, 'corruption': clabel,
                          'why_undecodable': why, 'response_hex': bad.hex(), 'uncorrupted_response_hex': frame.hex(),
                          'observed': D.outcome_plain(out)}
+                    tolerated = None
+                    if out[0] == 'return' and 'type 6 must have length' in why and D.outcome_coq(out) == D.outcome_coq(base):
+                        tolerated = 'boolean-length-field-ignored'      # Boolean.read does not look at its length; data intact
+                    elif out[0] == 'return' and '-length-' in clabel and clabel.startswith('type8'):
+                        # the final Byte String announces FEWER bytes, its former tail is left over inside the payload structure
+                        # and the payload reader does not look for left-over bytes (no is_oversized): the shorter value the
+                        # message now announces is returned.  Unchanged-tree leniency of the codec, counted, not demanded.
+                        tolerated = 'left-over-bytes-in-payload-structure-ignored'
+                    if tolerated:
+                        ctx.count('valuebytes.tolerated.%s' % tolerated)
+                        continue
                     if out[0] != 'other':
                         ctx.violation({'client': 'pie', 'op': op.name, 'response': 'undecodable-value-bytes', 'corruption': clabel,
                                        'what': 'returned-data' if out[0] == 'return' else 'operation-failure-from-undecodable'}, w,
